@@ -44,6 +44,8 @@ def run(ctx):
     r4(ctx)
     r5(ctx)
     r6(ctx)
+    rep.rule("C29.R9", "the file name handed out for an export is the one that was tested (and, with a registry, recorded) as unused", 1)
+    r9_unique_names(ctx)
     rep.rule("C29.R8", "lever arms handed to the point protocol in export methods are relative vectors (no uncancelled origin-based position)", 2)
     r8(ctx)
 
@@ -475,6 +477,45 @@ def _origin_net(e, local, seen=frozenset(), depth=0):
     return None
 
 
+def r9_unique_names(ctx):
+    """One collection and one family of .vtu files per export: the name handed out by the uniqueness helper is new with respect to what the helper
+    TESTS.  If the test is the file system (`<name>.pvd exists`) nothing has to be recorded; if it is a registry held by the exporter, the name
+    that is RETURNED is the one that must be registered - registering the requested name lets the second generated name (`body1`) be handed
+    out again, and the third export under one name overwrites the second one's collection and data files."""
+    rep = ctx.rep
+    mod = ctx.repo.module(VTK)
+    fns = [(q, f) for q, f in mod.defs().items() if isinstance(f, ast.FunctionDef) and "unique_file_name" in f.name]
+    if not fns:
+        raise AnalysisError(f"{VTK}: the file-name uniqueness helper vanished")
+    for q, fn in fns:
+        C = f"{VTK}:{q}"
+        rets = [r.value for r in ast.walk(fn) if isinstance(r, ast.Return) and r.value is not None]
+        loops = [w for w in ast.walk(fn) if isinstance(w, ast.While)]
+        if not rets or not loops:
+            rep.bad("C29.R9", C, fn.name, "the helper no longer searches for an unused name in a loop", f"{VTK}:{fn.lineno}")
+            continue
+        ret = norm_src(rets[-1])
+        test = loops[0].test
+        tested = {w.id for w in ast.walk(test) if isinstance(w, ast.Name)}
+        if ret not in tested:
+            rep.bad("C29.R9", C, test, f"the loop tests `{norm_src(test)[:60]}` but `{ret}` is returned: the returned name is not the one that was found to be unused", f"{VTK}:{loops[0].lineno}")
+            continue
+        members = [c for c in ast.walk(test) if isinstance(c, ast.Compare) and any(isinstance(o, (ast.In, ast.NotIn)) for o in c.ops)]
+        if not members:
+            rep.ok("C29.R9", C, f"uniqueness is tested on the file system (`{norm_src(test)[:60]}`) for the returned name `{ret}`")
+            continue
+        reg = norm_src(members[0].comparators[0])
+        adds = [w for w in ast.walk(fn) if isinstance(w, ast.Call) and isinstance(w.func, ast.Attribute) and w.func.attr in ("add", "append") and norm_src(w.func.value) == reg]
+        if not adds:
+            rep.bad("C29.R9", C, test, f"names are tested against the registry `{reg}` but the helper never registers the name it hands out", f"{VTK}:{loops[0].lineno}")
+        elif all(a.args and norm_src(a.args[0]) == ret for a in adds):
+            rep.ok("C29.R9", C, f"the returned name `{ret}` is registered in `{reg}`")
+        else:
+            a = adds[0]
+            rep.bad("C29.R9", C, a, f"`{norm_src(a)}` registers `{norm_src(a.args[0]) if a.args else '?'}` but `{ret}` is handed out: a generated name is never registered, so it is handed out "
+                    "again and the next export under the same requested name overwrites that collection and its data files", f"{VTK}:{a.lineno}")
+
+
 def r8(ctx):
     """The B_r_CP argument of the point protocol (r_OP, v_P, ... of a body or frame) is a lever arm measured from THAT body's reference
     point.  An origin-based position handed over as lever arm (r_OC instead of r_OC - r_OQ) gives the velocity v_Q + omega x r_OC of a point
@@ -605,7 +646,15 @@ MUTANTS += [
     dict(id="c29-r8-seed", canary=True, what="[seeded by sub-agent] Sphere2Plane.export: plane-side contact velocity with the origin-based contact position as lever arm", file=S2P,
          old="                self.frame.v_P(sol_i.t, B_r_CP=A_IB2.T @ r_QC2),\n", new="                self.frame.v_P(sol_i.t, B_r_CP=A_IB2.T @ (r_OP - n * (g_N + self.r))),\n", expect="C29.R8"),
 ]
+MUTANTS += [
+    dict(id="c29-r9-seed", canary=True, what="[seeded by sub-agent] unique-name helper keeps a registry but records the requested name instead of the issued one", file=VTK,
+         edits=[(VTK, "        while (self.path / f\"{file_name_}.pvd\").exists():\n", "        if not hasattr(self, \"_names\"):\n            self._names = set()\n        while file_name_ in self._names:\n"),
+                (VTK, "            i += 1\n        return file_name_\n", "            i += 1\n        self._names.add(file_name)\n        return file_name_\n")], expect="C29.R9"),
+]
 NEUTRAL = [
+    dict(id="c29-n-r9", canary=True, what="unique-name helper keeps a registry of the issued names", file=VTK,
+         edits=[(VTK, "        while (self.path / f\"{file_name_}.pvd\").exists():\n", "        if not hasattr(self, \"_names\"):\n            self._names = set()\n        while file_name_ in self._names:\n"),
+                (VTK, "            i += 1\n        return file_name_\n", "            i += 1\n        self._names.add(file_name_)\n        return file_name_\n")]),
     dict(id="c29-n-r8", canary=True, what="Sphere2Plane.export: plane-side lever arm written as a difference of two positions", file=S2P,
          old="                self.frame.v_P(sol_i.t, B_r_CP=A_IB2.T @ r_QC2),\n", new="                self.frame.v_P(sol_i.t, B_r_CP=A_IB2.T @ (r_OP - n * (g_N + self.r) - self.r_OQ(sol_i.t))),\n"),
     dict(id="c29-n1", canary=True, what="__prepare_data uses getattr instead of __getattribute__", file=VTK,
